@@ -52,9 +52,8 @@ pub(crate) fn crypto_secretbox_open_detached_inplace(
     computed_mac.update(data);
     let computed_mac = computed_mac.finalize_to_array();
 
-    cipher.apply_keystream(data);
-
     if mac.ct_eq(&computed_mac).unwrap_u8() == 1 {
+        cipher.apply_keystream(data);
         Ok(())
     } else {
         Err(dryoc_error!("decryption error (authentication failure)"))
